@@ -129,10 +129,6 @@ theorem mix_ask_ok (s : Mix) (h : MixInv s) : s.ask.1 = s.specOk := by
 
 /-! ### seq -/
 
-def seqSum : List Nat → Nat
-  | [] => 0
-  | n :: ns => n + seqSum ns
-
 theorem seqSpec_zero (ns : List Nat) : seqSpec 0 ns = ns.map fun _ => 0 := by
   induction ns with
   | nil => rfl
@@ -388,5 +384,50 @@ theorem hfinal_append {σ : Type} (step : σ → HEv → σ × HObs) (s : σ) (e
   induction es generalizing s with
   | nil => rfl
   | cons e es ih => simp [hfinal, ih]
+
+theorem hrun_eq_spec {σ : Type} (step : σ → HEv → σ × HObs) (sp : σ → HEv → HObs) (Inv : σ → Prop)
+    (hstep : ∀ s e, Inv s → Inv (step s e).1) (hobs : ∀ s e, Inv s → (step s e).2 = sp s e) :
+    ∀ (es : List HEv) (s : σ), Inv s → hrun step s es = hspecRun step sp s es := by
+  intro es
+  induction es with
+  | nil => intro s _; rfl
+  | cons e es ih =>
+    intro s h
+    simp only [hrun, hspecRun, hobs s e h, ih _ (hstep s e h)]
+
+theorem MEv.step_static (now : Nat) (e : MEv) : (e.step now).start = e.start ∧ (e.step now).len = e.len := by
+  unfold MEv.step; split
+  · split <;> exact ⟨rfl, rfl⟩
+  · exact ⟨rfl, rfl⟩
+
+theorem mix_static (es : List HEv) : ∀ (s : Mix) (i : Nat) (e : MEv), s.evs[i]? = some e →
+    ∃ e', (hfinal mixStep s es).evs[i]? = some e' ∧ e'.start = e.start ∧ e'.len = e.len := by
+  induction es with
+  | nil => intro s i e h; exact ⟨e, h, rfl, rfl⟩
+  | cons ev es ih =>
+    intro s i e h
+    have : ∃ e1, (mixStep s ev).1.evs[i]? = some e1 ∧ e1.start = e.start ∧ e1.len = e.len := by
+      cases ev with
+      | fork p => exact ⟨e, h, rfl, rfl⟩
+      | attach t len =>
+        refine ⟨e, ?_, rfl, rfl⟩
+        show (s.evs ++ _)[i]? = some e
+        have hi : i < s.evs.length := by
+          rcases Nat.lt_or_ge i s.evs.length with hi | hi
+          · exact hi
+          · rw [List.getElem?_eq_none hi] at h; cases h
+        rw [List.getElem?_append_left hi]; exact h
+      | ask c =>
+        show ∃ e1, s.ask.2.evs[i]? = some e1 ∧ _
+        unfold Mix.ask
+        split
+        · exact ⟨e, h, rfl, rfl⟩
+        · dsimp only
+          split
+          · exact ⟨e.step s.now, by simp [List.getElem?_map, h], MEv.step_static _ _⟩
+          · exact ⟨e.step s.now, by simp [List.getElem?_map, h], MEv.step_static _ _⟩
+    obtain ⟨e1, h1, h2, h3⟩ := this
+    obtain ⟨e', h4, h5, h6⟩ := ih _ i e1 h1
+    exact ⟨e', h4, by rw [h5, h2], by rw [h6, h3]⟩
 
 end ALV.C02
